@@ -14,8 +14,8 @@ RULE = ("bisect: ALL strictly increasing arrays of length 1..7 over a 9-point gr
         "non-trivial = >=1 comparison; distinct by (kind, array / seed)")
 ASSUMPTIONS = ["Hermite reproduction threshold: 8*eps*cond*(1+6(1+s)^2)*(1+|t0|/|L|) with cond = sum of |basis value * datum| (evaluated per query), extrapolation up to 1.5 interval lengths"]
 EXHAUSTIVE = {"quick": True, "thorough": True}
-FLOORS = {"quick": {"bisect_scalar_queries": 9000, "bisect_vector_queries": 9000, "hermite_queries": 3000, "insitu_contract_evaluations": 500, "bisect_arrays_on_scaled_axes": 120},
-          "thorough": {"bisect_scalar_queries": 27000, "bisect_vector_queries": 27000, "hermite_queries": 30000, "insitu_contract_evaluations": 5000, "bisect_arrays_on_scaled_axes": 300}}
+FLOORS = {"quick": {"bisect_scalar_queries": 9000, "bisect_vector_queries": 9000, "hermite_queries": 3000, "insitu_contract_evaluations": 500, "bisect_arrays_on_scaled_axes": 120, "bisect_scalar_queries_in_other_orders": 20000, "bisect_mixed_dtype_queries": 20000},
+          "thorough": {"bisect_scalar_queries": 27000, "bisect_vector_queries": 27000, "hermite_queries": 30000, "insitu_contract_evaluations": 5000, "bisect_arrays_on_scaled_axes": 300, "bisect_scalar_queries_in_other_orders": 60000, "bisect_mixed_dtype_queries": 100000}}
 GRID = [float(x) for x in range(-4, 5)]
 K = 8
 
@@ -38,6 +38,9 @@ def gen_cases(tier, seed):
     if tier == "quick":
         cases.append(dict(kind="bisect", dtype="float32", lo=0, hi=120, cost=3))
         cases.append(dict(kind="bisect", dtype="longdouble", lo=380, hi=501, cost=3))
+    for k, mixed in enumerate(["int64", "int32", "float32", "float16"]):
+        for i in (range(0, len(arrs), chunk) if tier == "thorough" else [60 * ((3 * k + 7 * seed) % 8), 60 * ((3 * k + 7 * seed + 4) % 8)]):
+            cases.append(dict(kind="bisect", dtype="float64", mixed=mixed, lo=i, hi=min(len(arrs), i + chunk), cost=3))
     rng = rng_for(1701, seed)
     # the same small-scope arrays and queries under affine maps of the axis: spacings far below sqrt(eps) and far above 1, large offsets
     for (off, sc) in ((0.0, 1e-9), (0.0, 1e-12), (1.0, 2.0 ** -40), (1e6, 2.0 ** -20), (0.0, 1e9), (-3e-7, 1e-8), (-1e3, 1e-5)):
@@ -66,7 +69,7 @@ def _bisect(spec):
     import desolver.utilities as du
     dt = dtype_of(spec["dtype"])
     arrs = all_arrays()[spec["lo"]:spec["hi"]]
-    rec = util.Rec(sig="bisect|%s|%d" % (spec["dtype"], spec["lo"]))
+    rec = util.Rec(sig="bisect|%s|%d|%s|%s" % (spec["dtype"], spec["lo"], spec.get("mixed"), spec.get("sc")))
     feats = {"kind": "bisect", "dtype": spec["dtype"]}
     queries = [x / 2.0 for x in range(-10, 11)]
     if spec.get("sc"):
@@ -77,9 +80,23 @@ def _bisect(spec):
         feats["axis"] = "off=%g,scale=%g" % (off, sc)
         rec.bump("bisect_arrays_on_scaled_axes", len(arrs))
     bad = 0
+    if spec.get("mixed"):
+        return _bisect_mixed(spec, arrs, queries, rec, feats)
+    orders = {"ascending": list(queries), "descending": list(queries)[::-1],
+              "shuffled": [queries[(7 * i + 3) % len(queries)] for i in range(len(queries))] + [queries[(5 * i + 1) % len(queries)] for i in range(len(queries))]}
     for a in arrs:
         an = np.asarray(a, dtype=dt)
         for container, name in ((list(an), "list"), (an, "ndarray")):
+            # the answer is a function of (array, query) alone: every order of asking, and asking twice, gives the same indices
+            for oname in ("descending", "shuffled"):
+                for q in orders[oname]:
+                    want = ref_index(a, q)
+                    got = du.search_bisection(container, dt.type(q))
+                    rec.bump("bisect_scalar_queries_in_other_orders")
+                    if int(got) != want:
+                        bad += 1
+                        if bad <= 3:
+                            rec.violate("bisection_scalar", "scalar_search_depends_on_the_order_of_queries", dict(feats, container=name, order=oname), array=a, query=q, got=int(got), want=want)
             for q in queries:
                 qv = dt.type(q)
                 want = ref_index(a, q)
@@ -99,6 +116,42 @@ def _bisect(spec):
                         got=int(gv[j]) if j >= 0 else list(gv.shape), want=int(wv[j]) if j >= 0 else list(wv.shape))
     rec.nontrivial = True
     rec.sample = {"spec": spec, "first_array": arrs[0], "last_array": arrs[-1], "queries": queries[:5]}
+    return rec.out()
+
+
+def _bisect_mixed(spec, arrs, queries, rec, feats):
+    """Array and queries of DIFFERENT dtypes (integer or reduced-precision grids asked with float64 times, incl. queries the array's type cannot
+    represent): the comparison is between the values, so the reference is searchsorted on exact (longdouble) values."""
+    import desolver.utilities as du
+    adt = np.dtype(spec["mixed"])
+    feats = dict(feats, array_dtype=spec["mixed"], query_dtype="float64")
+    bad = 0
+    for a in arrs:
+        if adt.kind in "iu":
+            an = np.asarray([int(round(2 * x)) for x in a], dtype=adt)      # the half-integer grid doubled: integers
+            qs = [2.0 * q for q in queries] + [2.0 * q + 0.5 for q in queries] + [2.0 * q - 1e-9 for q in queries]
+        else:
+            an = np.asarray(a, dtype=adt)
+            tiny = 1e-9 if adt == np.float32 else 1e-5
+            qs = list(queries) + [q + tiny for q in queries] + [q - tiny for q in queries]
+        ex = np.asarray(an, dtype=np.longdouble)
+        wv = np.array([min(int(np.searchsorted(ex, np.longdouble(q), side="left")), len(an) - 1) for q in qs])
+        for container, name in ((list(an), "list"), (an, "ndarray")):
+            for q, want in zip(qs, wv):
+                got = du.search_bisection(container, np.float64(q))
+                rec.bump("bisect_mixed_dtype_queries")
+                if int(got) != int(want):
+                    bad += 1
+                    if bad <= 3:
+                        rec.violate("bisection_scalar", "scalar_search_differs_from_first_element_not_smaller", dict(feats, container=name), array=[float(x) for x in an], query=q, got=int(got), want=int(want))
+        gv = np.asarray(du.search_bisection_vec(an, np.asarray(qs, dtype=np.float64)))
+        rec.bump("bisect_mixed_dtype_queries", len(qs))
+        if gv.shape != wv.shape or not np.array_equal(gv, wv):
+            j = int(np.nonzero(gv != wv)[0][0]) if gv.shape == wv.shape else -1
+            rec.violate("bisection_vector", "vector_search_differs_from_reference", feats, array=[float(x) for x in an], query=qs[j] if j >= 0 else None,
+                        got=int(gv[j]) if j >= 0 else list(gv.shape), want=int(wv[j]) if j >= 0 else list(wv.shape))
+    rec.nontrivial = True
+    rec.sample = {"spec": spec, "first_array": arrs[0], "queries": qs[:5]}
     return rec.out()
 
 
